@@ -446,6 +446,9 @@ class Exec:
             pe = PureEval(self, st3, dict(st3.env, **{g.target.id: x}))
             if g.ifs:
                 return self.filter_comp(e, g, src, i, pe, st3, k)
+            if (isinstance(e.elt, ast.Call) and isinstance(e.elt.func, ast.Name) and e.elt.func.id == "Node"
+                    and len(e.elt.args) == 1 and not e.elt.keywords and "Node" not in st3.env):
+                return self.fresh_nodes_comp(e, src, i, pe, st3, k)
             try:
                 body = pe.ev(e.elt)
             except Unsupported as u:
@@ -468,6 +471,27 @@ class Exec:
                 return self.branch(allc, st4, lambda s: go(defs[1:], s), lambda s: self.raise_(exc, s))
             return go(list(pe.defs), st3)
         return self.ev(g.iter, st, got)
+
+    def fresh_nodes_comp(self, e, src, i, pe, st, k):
+        """[Node(label(x)) for x in src]: one new Node per element, used through the (proved) contract of Node.__init__ with
+        id=None: the given label, an implicit integer id that was not alive before and is alive afterwards, not persistent;
+        the ids of different positions differ."""
+        lab = pe.ev(e.elt.args[0])
+        if not (isinstance(lab, SPrim) and lab.ty == "NodeLabel"): raise Unsupported("Node(<non-label>) in a comprehension")
+        es = S.sort_of("Node")
+        n = src.n
+        arr = S.fresh("nn.arr", z3.ArraySort(z3.IntSort(), es))
+        new_alive = S.fresh("alive", st.alive.sort())
+        j, j2, a = z3.Int("j!nn"), z3.Int("j2!nn"), z3.Int("i!al")
+        lab_at = lambda t: z3.substitute(lab.t, (i, t))
+        idn = lambda t: S.Id.i(S.Node.f_id(arr[t]))
+        st = st.fact(S.seq_norm(n, arr, es))
+        st = st.fact(z3.ForAll([j], z3.Implies(z3.And(j >= 0, j < n), z3.And(
+            S.Node.f_label(arr[j]) == lab_at(j), S.Id.is_IntId(S.Node.f_id(arr[j])), z3.Not(S.Node.f_persist_id(arr[j])),
+            z3.Not(st.alive[idn(j)]), new_alive[idn(j)])), patterns=[arr[j]]))
+        st = st.fact(z3.ForAll([j, j2], z3.Implies(z3.And(j >= 0, j < j2, j2 < n), idn(j) != idn(j2))))
+        st = st.fact(z3.ForAll([a], z3.Implies(st.alive[a], new_alive[a])))
+        return k(SSeq("Node", n, arr), st.but(alive=new_alive))
 
     def filter_comp(self, e, g, src, i, pe, st, k):
         """[f(x) for x in src if c(x)]: a fresh sequence r with an order-preserving index map."""
